@@ -163,4 +163,468 @@ theorem applier_nohold {cfg : Cfg} {k : Hash} {s s' : State} {ch : Choice}
     intro now k' c expr cost v bs hpc _
     exact ⟨pending_congr (by simp [hpc, apSwPolDel, appElem]) rfl rfl, id, id⟩
 
+theorem isItemK_of_setK {k : Hash} {e : BufElem} (h : e.isSetK k) : isItemK k e := by
+  cases e with
+  | item i => exact h.1
+  | marker id => exact h
+
+/-- one step from `PendN`: still `PendN`, or the applier has just applied `N` -/
+theorem pendN_step {cfg : Cfg} {k : Hash} {c : Conf} {v : Val} {exp : Time} {Q : List BufElem → Prop}
+    {s s' : State} {a : Action} (hQ : PushStable Q)
+    (hr : Reach cfg s) (hns : NoSetK k s) (hnd : NoDelK k s) (hnc : NoClr s) (hconf : ConfAgree k s.log)
+    (hcalm : Calm k s) (hcalm' : Calm k s') (hs : step cfg s a = some s') (h : PendN k c v exp Q s) :
+    PendN k c v exp Q s' ∨ AppliedK k c v exp s' := by
+  obtain ⟨f, N, back, hp, hN, hf, hb, hq, hst, hco⟩ := h
+  by_cases happl : ∃ ch, a = .applier ch
+  · obtain ⟨ch, rfl⟩ := happl
+    have hs' : applierStep cfg s ch = some s' := hs
+    cases hheld : appElem s.app with
+    | none =>
+      obtain ⟨h1, h2, h3⟩ := applier_nohold (k := k) hs' hheld
+      have hco1 : s.pol.costs.lookup k = none := by
+        rcases hco with h | ⟨_, i, vs, ha, _⟩
+        · exact h
+        · rw [ha] at hheld; cases hheld
+      exact Or.inl ⟨f, N, back, by rw [h1]; exact hp, hN, hf, hb, hq, h2 hst, Or.inl (h3 hco1)⟩
+    | some e0 =>
+      have hpe : pending s = e0 :: queue s := by simp [pending, hheld]
+      cases f with
+      | nil =>
+        -- the applier holds `N`
+        have heq : e0 = N ∧ queue s = back := by
+          rw [hpe] at hp; simpa using hp
+        obtain ⟨rfl, hqb⟩ := heq
+        cases e0 with
+        | marker id => exact hN.elim
+        | item i =>
+          have hik : i.key = k := hN.2.1
+          cases happ : s.app <;> simp [happ, appElem] at hheld
+          case item i' =>
+            subst hheld
+            simp only [applierStep, happ] at hs'
+            obtain ⟨_, hs'⟩ := needNone_some hs'
+            simp only [Option.some.injEq] at hs'; subst hs'
+            have hco1 : s.pol.costs.lookup k = none := by
+              rcases hco with h | ⟨_, i2, vs, ha, _⟩
+              · exact h
+              · rw [ha] at happ; cases happ
+            refine Or.inl ⟨[], .item { i' with cost := itemCost cfg i' }, back, ?_, hN, hf, hb, hq, hst, Or.inl hco1⟩
+            simp [pending, apItem, appElem, queue] at hqb ⊢
+            exact hqb
+          case costed i' =>
+            subst hheld
+            have hco1 : s.pol.costs.lookup k = none := by
+              rcases hco with h | ⟨_, i2, vs, ha, _⟩
+              · exact h
+              · rw [ha] at happ; cases happ
+            simp only [applierStep, happ] at hs'
+            unfold apCosted at hs'
+            rw [hN.1] at hs'
+            simp only at hs'
+            unfold apCostedNew at hs'
+            split at hs'
+            · rename_i vs added
+              split at hs'
+              · simp at hs'
+              · rename_i pm _
+                simp only [Option.some.injEq] at hs'; subst hs'
+                have hadd : added = true := hcalm'.admitted i' vs added rfl hik
+                subst hadd
+                refine Or.inl ⟨[], .item i', back, ?_, hN, hf, hb, hq, hst, Or.inr ⟨rfl, i', vs, rfl, rfl⟩⟩
+                simp [pending, appElem, queue] at hqb ⊢
+                exact hqb
+            · simp at hs'
+          case added i' vs ok =>
+            subst hheld
+            have hok : ok = true := hcalm.admitted i' vs ok happ hik
+            subst hok
+            simp only [applierStep, happ] at hs'
+            obtain ⟨_, hs'⟩ := needNone_some hs'
+            simp only [Option.some.injEq] at hs'; subst hs'
+            have happ' : appElem (apAdded cfg s i' vs true).app = none := by
+              unfold apAdded afterVictims; split <;> split <;> simp [appElem]
+            refine Or.inr ⟨?_, ?_⟩
+            · have : (apAdded cfg s i' vs true).store = (storeSet cfg s.store s.em i').1 := by
+                simp [apAdded]
+              rw [this, ← hik, storeSet_absent cfg s.store s.em i' (by rw [hik]; exact hst)]
+              obtain ⟨_, _, h3, h4, h5⟩ := hN
+              rw [h3, h4, h5]
+            · have : pending (apAdded cfg s i' vs true) = back := by
+                rw [pending, happ']; simp [queue] at hqb ⊢; exact hqb
+              rw [this]; exact hb
+          case tombPolicy i' =>
+            subst hheld
+            have := ((item_inv hr).tomb_del i' happ).1
+            rw [hN.1] at this; cases this
+      | cons x f' =>
+        -- the applier holds an element of another key
+        have hx : e0 = x ∧ queue s = f' ++ N :: back := by
+          rw [hpe] at hp; simpa using hp
+        obtain ⟨rfl, _⟩ := hx
+        have hnotk : ¬ isItemK k e0 := hf e0 (by simp)
+        have hheldk : HeldNotSetK k s := by
+          intro e he hs
+          rw [hheld] at he; cases he
+          exact hnotk (isItemK_of_setK hs)
+        have hco1 : s.pol.costs.lookup k = none := by
+          rcases hco with h | ⟨h, _⟩
+          · exact h
+          · cases h
+        have hks := kstep k hr hns hconf hs
+        have hnc' : NoClr s' := noClr_step (queue_inv hr) hnc (by simp [Action.isSpawnClear]) hs
+        cases hks with
+        | quiet hp' hk _ =>
+          exact Or.inl ⟨e0 :: f', N, back, by rw [hp']; exact hp, hN, hf, hb, hq, (hk hheldk).1 hst, Or.inl ((hk hheldk).2 hco1)⟩
+        | push e _ hsrc hp' hk _ =>
+          exact Or.inl ⟨e0 :: f', N, back ++ [e], by rw [hp', hp]; simp, hN, hf,
+            hb.append (pushSrc_notK hns hnd hsrc), hQ _ _ hq, (hk hheldk).1 hst, Or.inl ((hk hheldk).2 hco1)⟩
+        | recost i0 c0 r hp1 hp2 hk _ =>
+          rw [hp] at hp1
+          simp only [List.cons_append, List.cons.injEq] at hp1
+          obtain ⟨rfl, rfl⟩ := hp1
+          refine Or.inl ⟨.item { i0 with cost := c0 } :: f', N, back, by rw [hp2]; simp, hN, ?_, hb, hq,
+            (hk hheldk).1 hst, Or.inl ((hk hheldk).2 hco1)⟩
+          intro e he
+          rcases List.mem_cons.mp he with rfl | h1
+          · exact hnotk
+          · exact hf e (List.mem_cons_of_mem _ h1)
+        | popNonTomb x hp1 _ hk _ =>
+          rw [hp] at hp1
+          simp only [List.cons_append, List.cons.injEq] at hp1
+          obtain ⟨_, hp1⟩ := hp1
+          exact Or.inl ⟨f', N, back, hp1.symm, hN, hf.sub (fun _ he => List.mem_cons_of_mem _ he), hb, hq,
+            (hk hheldk).1 hst, Or.inl ((hk hheldk).2 hco1)⟩
+        | popTomb x hp1 hx _ _ _ =>
+          exfalso
+          rw [hp] at hp1
+          simp only [List.cons_append, List.cons.injEq] at hp1
+          obtain ⟨rfl, _⟩ := hp1
+          apply hnotk
+          cases e0 with
+          | item i => exact hx.1
+          | marker id => exact hx
+        | drained x t closing _ _ hpc _ => exact (clr_elim (by rw [hpc]; rfl) (hnc' t)).elim
+        | drainEnd t closing _ _ hpc _ _ => exact (clr_elim (by rw [hpc]; rfl) (hnc t)).elim
+        | clrPolicy t closing _ _ _ hpc _ _ => exact (clr_elim (by rw [hpc]; rfl) (hnc t)).elim
+        | clrShard t closing j _ _ _ _ hpc _ _ => exact (clr_elim (by rw [hpc]; rfl) (hnc t)).elim
+  · have hna : ∀ ch, a ≠ .applier ch := fun ch e => happl ⟨ch, e⟩
+    obtain ⟨h1, h2, h3, h4⟩ := side_step k hns hnd hnc hs hna
+    have hco' : s'.pol.costs.lookup k = none ∨ (f = [] ∧ ∃ i vs, s'.app = .added i vs true ∧ N = .item i) := by
+      rcases hco with h | ⟨hf0, i, vs, ha, hn⟩
+      · exact Or.inl (by rw [h3]; exact h)
+      · exact Or.inr ⟨hf0, i, vs, by rw [h1]; exact ha, hn⟩
+    rcases h4 with e | ⟨e, e1, e2⟩
+    · exact Or.inl ⟨f, N, back, by rw [e]; exact hp, hN, hf, hb, hq, by rw [h2]; exact hst, hco'⟩
+    · exact Or.inl ⟨f, N, back ++ [e], by rw [e1, hp]; simp, hN, hf, hb.append e2, hQ _ _ hq,
+        by rw [h2]; exact hst, hco'⟩
+
+def VisQ (k : Hash) (c : Conf) (v : Val) (exp : Time) (Q : List BufElem → Prop) (s : State) : Prop :=
+  PendN k c v exp Q s ∨ AppliedK k c v exp s
+
+theorem VisQ.mono {k : Hash} {c : Conf} {v : Val} {exp : Time} {Q Q' : List BufElem → Prop} {s : State}
+    (h : VisQ k c v exp Q s) (hq : ∀ b, Q b → Q' b) : VisQ k c v exp Q' s := by
+  rcases h with ⟨f, N, back, h1, h2, h3, h4, h5, h6⟩ | h
+  · exact Or.inl ⟨f, N, back, h1, h2, h3, h4, hq _ h5, h6⟩
+  · exact Or.inr h
+
+/-- what every state of the run satisfies by hypothesis -/
+structure RunHyp (cfg : Cfg) (k : Hash) (exp : Time) (s : State) : Prop where
+  reach : Reach cfg s
+  nos : NoSetK k s
+  nod : NoDelK k s
+  noc : NoClr s
+  conf : ConfAgree k s.log
+  calm : Calm k s
+  ttl : exp = Gen.zeroTime ∨ s.clock < exp
+  opn : s.closed = false
+
+theorem visQ_step {cfg : Cfg} {k : Hash} {c : Conf} {v : Val} {exp : Time} {Q : List BufElem → Prop}
+    {s s' : State} {a : Action} (hQ : PushStable Q) (hh : RunHyp cfg k exp s) (hcalm' : Calm k s')
+    (hs : step cfg s a = some s') (h : VisQ k c v exp Q s) : VisQ k c v exp Q s' := by
+  rcases h with h | h
+  · exact pendN_step hQ hh.reach hh.nos hh.nod hh.noc hh.conf hh.calm hcalm' hs h
+  · exact Or.inr (applied_step hh.reach hh.nos hh.nod hh.noc hh.conf hh.calm hh.ttl hs h)
+
+/-- a `waitRet tw` logged after a `waitCall tw` (both in the appended part of the log) -/
+def WaitCycle : List Ev → Prop
+  | [] => False
+  | ev :: l => WaitCycle l ∨ ∃ tw, ev = .waitRet tw ∧ .waitCall tw ∈ l
+
+theorem WaitCycle.of_append {evs l : List Ev} (h : WaitCycle (evs ++ l)) :
+    WaitCycle l ∨ ∃ tw, .waitRet tw ∈ evs ∧ .waitCall tw ∈ evs ++ l := by
+  induction evs with
+  | nil => exact Or.inl h
+  | cons e r ih =>
+    rcases h with h | ⟨tw, rfl, hc⟩
+    · rcases ih h with h1 | ⟨tw, h1, h2⟩
+      · exact Or.inl h1
+      · exact Or.inr ⟨tw, List.mem_cons_of_mem _ h1, List.mem_cons_of_mem _ h2⟩
+    · exact Or.inr ⟨tw, by simp, List.mem_cons_of_mem _ hc⟩
+
+theorem WaitCycle.of_shape {tw : Tid} {l2 l1 l0 : List Ev} :
+    WaitCycle (l2 ++ .waitRet tw :: (l1 ++ .waitCall tw :: l0)) := by
+  induction l2 with
+  | nil => exact Or.inr ⟨tw, rfl, by simp⟩
+  | cons e r ih => exact Or.inl ih
+
+theorem last_in_back {α : Type} {l f back : List α} {m N : α} (h : l ++ [m] = f ++ N :: back) (hne : N ≠ m) :
+    m ∈ back := by
+  have h2 := congrArg List.reverse h
+  simp only [List.reverse_append, List.reverse_cons, List.reverse_nil, List.nil_append, List.singleton_append] at h2
+  cases hb : back.reverse with
+  | nil =>
+    rw [hb] at h2; simp at h2
+    exact absurd h2.1.symm hne
+  | cons x r =>
+    rw [hb] at h2; simp at h2
+    have : x ∈ back.reverse := by rw [hb]; simp
+    rw [← h2.1] at this
+    exact List.mem_reverse.mp this
+
+/-- the phase invariant for the `Wait` that follows the `Set` -/
+structure VisPhase (k : Hash) (c : Conf) (v : Val) (exp : Time) (s : State) (new : List Ev) : Prop where
+  base : VisQ k c v exp (fun _ => True) s
+  w3 : ∀ tw id, (s.cl tw = .waitBlocked id ∨ s.cl tw = .waitRecv id) → .waitCall tw ∈ new →
+    VisQ k c v exp (fun b => .marker id ∈ b) s
+  w4 : ∀ tw, s.cl tw = .waitDone → .waitCall tw ∈ new → AppliedK k c v exp s
+  w5 : WaitCycle new → AppliedK k c v exp s
+
+theorem visQ_marker_closed {cfg : Cfg} {k : Hash} {c : Conf} {v : Val} {exp : Time} {s : State} {id : Nat}
+    (hq : QueueInv cfg s) (hc : id ∈ s.closedMarkers) (h : VisQ k c v exp (fun b => .marker id ∈ b) s) :
+    AppliedK k c v exp s := by
+  rcases h with ⟨f, N, back, h1, _, _, _, h5, _⟩ | h
+  · exfalso
+    refine hq.mk_open id (mem_markerIds.mpr ?_) hc
+    rw [h1]; simp [h5]
+  · exact h
+
+theorem VisPhase.step {cfg : Cfg} {k : Hash} {c : Conf} {v : Val} {exp : Time} {s s' : State} {a : Action}
+    {new evs : List Ev} (hh : RunHyp cfg k exp s) (hcalm' : Calm k s') (hs : step cfg s a = some s')
+    (hal : ∀ e ∈ evs, Allowed s a e) (h : VisPhase k c v exp s new) :
+    VisPhase k c v exp s' (evs ++ new) := by
+  have hq := queue_inv hh.reach
+  have stab : ∀ {Q : List BufElem → Prop}, PushStable Q → VisQ k c v exp Q s → VisQ k c v exp Q s' :=
+    fun hQ hv => visQ_step hQ hh hcalm' hs hv
+  have stabA : AppliedK k c v exp s → AppliedK k c v exp s' :=
+    fun ha => applied_step hh.reach hh.nos hh.nod hh.noc hh.conf hh.calm hh.ttl hs ha
+  have hcall_wait : ∀ tw, .waitCall tw ∈ evs → a = .spawn tw .wait := fun tw hm => hal _ hm
+  have spawn_pc : ∀ t c, a = .spawn t c → (s'.cl t).blocked = false ∧
+      (∀ id, s'.cl t ≠ .waitRecv id) ∧ s'.cl t ≠ .waitDone := by
+    intro t c e; subst e
+    obtain ⟨h1, h2⟩ := spawn_next (show spawnStep s t c = some s' from hs)
+    rw [h2]
+    cases c <;> simp [CPc.blocked]
+  constructor
+  · exact stab pushStable_true h.base
+  · intro tw id hpc hw
+    have hw' : .waitCall tw ∈ new := by
+      rcases List.mem_append.mp hw with h1 | h1
+      · exfalso
+        obtain ⟨hb, hr', _⟩ := spawn_pc tw _ (hcall_wait tw h1)
+        rcases hpc with e | e
+        · rw [e] at hb; simp [CPc.blocked] at hb
+        · exact hr' id e
+      · exact h1
+    by_cases hown : a.owner tw
+    · rcases owner_cases hs hown with ⟨ch, rfl, hn⟩ | hcore | ⟨c', rfl, _⟩
+      · obtain ⟨hpc0, rfl⟩ := next_waitSent hn hpc
+        have hs' : clientStep cfg s tw ch = some s' := hs
+        simp only [clientStep, hpc0] at hs'
+        obtain ⟨_, hs'⟩ := needNone_some hs'
+        simp only [Option.some.injEq] at hs'; subst hs'
+        rcases stab pushStable_true h.base with ⟨f, N, back, h1, h2, h3, h4, _, h6⟩ | ha
+        · refine Or.inl ⟨f, N, back, h1, h2, h3, h4, ?_, h6⟩
+          rw [marker_enqueued] at h1
+          refine last_in_back h1 ?_
+          intro e; rw [e] at h2; exact h2
+        · exact Or.inr ha
+      · exfalso
+        rcases hpc with e | e <;> (rw [e] at hcore; exact core_true_ne hcore rfl)
+      · exfalso
+        obtain ⟨hb, hr', _⟩ := spawn_pc tw c' rfl
+        rcases hpc with e | e
+        · rw [e] at hb; simp [CPc.blocked] at hb
+        · exact hr' id e
+    · apply stab (pushStable_mem _)
+      rcases step_cl_f hq hs tw hown with e | ⟨hb, e⟩
+      · rw [e] at hpc; exact h.w3 tw id hpc hw'
+      · refine h.w3 tw id (Or.inl ?_) hw'
+        rw [e] at hpc
+        cases hpc0 : s.cl tw <;> simp [hpc0, CPc.blocked, unblockedPc] at hb hpc ⊢
+        exact hpc
+  · intro tw hpc hw
+    have hw' : .waitCall tw ∈ new := by
+      rcases List.mem_append.mp hw with h1 | h1
+      · exfalso
+        obtain ⟨_, _, hd⟩ := spawn_pc tw _ (hcall_wait tw h1)
+        exact hd hpc
+      · exact h1
+    by_cases hown : a.owner tw
+    · rcases owner_cases hs hown with ⟨ch, rfl, hn⟩ | hcore | ⟨c', rfl, _⟩
+      · rw [hpc] at hn
+        obtain ⟨id, hpc0, hcl⟩ := next_waitDone hn
+        exact stabA (visQ_marker_closed hq hcl (h.w3 tw id (Or.inr hpc0) hw'))
+      · exfalso; rw [hpc] at hcore; exact core_true_ne hcore rfl
+      · exfalso
+        obtain ⟨_, _, hd⟩ := spawn_pc tw c' rfl
+        exact hd hpc
+    · apply stabA
+      rcases step_cl_f hq hs tw hown with e | ⟨hb, e⟩
+      · rw [e] at hpc; exact h.w4 tw hpc hw'
+      · exfalso
+        rw [e] at hpc
+        cases hpc0 : s.cl tw <;> simp [hpc0, CPc.blocked, unblockedPc] at hb hpc
+  · intro hd
+    rcases hd.of_append with h1 | ⟨tw, h1, h2⟩
+    · exact stabA (h.w5 h1)
+    · have hA := hal _ h1
+      simp only [Allowed] at hA
+      obtain ⟨ch, rfl, hpc⟩ := hA
+      have hw' : .waitCall tw ∈ new := by
+        rcases List.mem_append.mp h2 with h3 | h3
+        · have := hcall_wait tw h3; cases this
+        · exact h3
+      apply stabA
+      rcases hpc with hpc | ⟨hpc, hcl⟩
+      · exact h.w4 tw hpc hw'
+      · rw [hh.opn] at hcl; cases hcl
+
+/-- `closed` stays false while no `Clear`/`Close` is in progress -/
+theorem open_step {cfg : Cfg} {s s' : State} {a : Action} (hnc : NoClr s) (ho : s.closed = false)
+    (hs : step cfg s a = some s') : s'.closed = false := by
+  cases hc : s'.closed
+  · rfl
+  · rcases (step_mono hs).2.2 hc with h | ⟨t, h⟩
+    · rw [ho] at h; cases h
+    · exact (clr_elim (by rw [h]; rfl) (hnc t)).elim
+
+/-- induction along a run that knows the prefix already executed and the rest still to come -/
+theorem run_induction_mid {cfg : Cfg} {P : State → Prop} {s0 sfin : State} {acts : List Action}
+    (h0 : Reach cfg s0) (hp : P s0)
+    (hstep : ∀ pre a rest s s', acts = pre ++ a :: rest → run cfg s0 pre = some s → Reach cfg s → P s →
+      step cfg s a = some s' → run cfg s' rest = some sfin → P s')
+    (hr : run cfg s0 acts = some sfin) : P sfin := by
+  have aux : ∀ (rest pre : List Action) (s : State), Reach cfg s → run cfg s0 pre = some s → P s →
+      acts = pre ++ rest → run cfg s rest = some sfin → P sfin := by
+    intro rest
+    induction rest with
+    | nil => intro pre s _ _ hps _ hrr; simp [Cache.run] at hrr; subst hrr; exact hps
+    | cons a as ih =>
+      intro pre s hrs hpre hps hacts hrr
+      simp only [Cache.run] at hrr
+      cases hs : step cfg s a with
+      | none => simp [hs] at hrr
+      | some s1 =>
+        simp only [hs] at hrr
+        refine ih (pre ++ [a]) s1 (hrs.of_step hs) ?_ (hstep pre a as s s1 hacts hpre hrs hps hs hrr)
+          (by rw [hacts]; simp) hrr
+        rw [run_append, hpre]; simp [Cache.run, hs]
+  exact aux acts [] s0 h0 rfl hp rfl hr
+
+/-- (g) `set_then_wait_visible`.  Client `t` is about to send the new-item `N` of its `Set` of
+`k` (`k` is not resident, not accounted, nothing of `k` is pending, the buffer has room, the cache
+is open); nobody else is inside a `Set`/`Del` of `k` or a `Clear`/`Close`, and none is issued
+during the run; in every state of the run the policy admits `k`'s item and does not pick `k` as
+a victim (`Calm`); the TTL (if any) has not elapsed at the end; `CollisionFree`.  Then, if the
+run's log shows a `waitRet tw` after a `waitCall tw`, `k` is resident with exactly `N`'s value
+and expiration, and nothing of `k` is pending. -/
+theorem set_then_wait_visible {cfg : Cfg} {k : Hash} {c : Conf} {v : Val} {exp : Time} {s0 s2 : State} {t : Tid}
+    {N : Item} {acts : List Action} {new : List Ev}
+    (h0 : Reach cfg s0) (hpc : s0.cl t = .setSend N)
+    (hN : N.flag = .new ∧ N.key = k ∧ N.conflict = c ∧ N.value = v ∧ N.exp = exp)
+    (hroom : s0.buf.length < cfg.bufCap ∧ s0.sendq = []) (hopen : s0.closed = false)
+    (hnr : s0.store.lookup k = none) (hna : s0.pol.costs.lookup k = none) (hnp : NoItemK k (pending s0))
+    (hothers : ∀ t', t' ≠ t → ¬ (s0.cl t').inSetK k) (hnd : NoDelK k s0) (hnc : NoClr s0)
+    (hacts : ∀ a ∈ acts, ¬ a.isSpawnSet k ∧ ¬ a.isSpawnDel k ∧ ¬ a.isSpawnClear)
+    (hr : run cfg (stSetSend cfg s0 t N) acts = some s2)
+    (hcalm : ∀ as1 as2 s, acts = as1 ++ as2 → run cfg (stSetSend cfg s0 t N) as1 = some s → Calm k s)
+    (httl : exp = Gen.zeroTime ∨ s2.clock < exp) (hconf : ConfAgree k s2.log)
+    (hlog : s2.log = new ++ (stSetSend cfg s0 t N).log) (hwait : WaitCycle new) :
+    s2.store.lookup k = some ⟨c, v, exp⟩ ∧ NoItemK k (pending s2) := by
+  have hstep : step cfg s0 (.client t .none) = some (stSetSend cfg s0 t N) := by
+    simp [step, clientStep, hpc, needNone]
+  have h1 : Reach cfg (stSetSend cfg s0 t N) := h0.of_step hstep
+  have hsend : stSetSend cfg s0 t N = setCl { s0 with buf := s0.buf ++ [.item N] } t (.setRetTrue N) := by
+    unfold stSetSend; rw [if_pos hroom]
+  have hp1 : pending (stSetSend cfg s0 t N) = pending s0 ++ [.item N] := by
+    rw [hsend]; simp [pending, queue, hroom.2]
+  -- the invariant
+  have key : ∃ new', s2.log = new' ++ (stSetSend cfg s0 t N).log ∧ RunHyp cfg k exp s2 ∧ VisPhase k c v exp s2 new' := by
+    refine run_induction_mid (P := fun s => ∃ new', s.log = new' ++ (stSetSend cfg s0 t N).log ∧
+      (NoSetK k s ∧ NoDelK k s ∧ NoClr s ∧ s.closed = false) ∧ VisPhase k c v exp s new') h1 ?_ ?_ hr |>.imp
+      (fun new' ⟨hl, ⟨a1, a2, a3, a4⟩, hv⟩ => ⟨hl, ⟨h1.run hr, a1, a2, a3, hconf, hcalm acts [] s2 (by simp) hr, httl, a4⟩, hv⟩)
+    · refine ⟨[], rfl, ⟨?_, ?_, ?_, ?_⟩, ?_⟩
+      · intro t' hin
+        by_cases e : t' = t
+        · subst e; rw [hsend] at hin; simp [CPc.inSetK] at hin
+        · rw [stSetSend_cl_ne (hne := e)] at hin; exact hothers t' e hin
+      · intro t' hin
+        by_cases e : t' = t
+        · subst e; rw [hsend] at hin; simp [CPc.inDelK] at hin
+        · rw [stSetSend_cl_ne (hne := e)] at hin; exact hnd t' hin
+      · intro t'
+        by_cases e : t' = t
+        · subst e; rw [hsend]; simp; rfl
+        · rw [stSetSend_cl_ne (hne := e)]; exact hnc t'
+      · simpa using hopen
+      · have hb : VisQ k c v exp (fun _ => True) (stSetSend cfg s0 t N) :=
+          Or.inl ⟨pending s0, .item N, [], (by rw [hp1]), hN, hnp, (fun _ he => by cases he), trivial,
+            (by simpa using hnr), Or.inl (by simpa using hna)⟩
+        exact ⟨hb, (fun _ _ _ hm => by cases hm), (fun _ _ hm => by cases hm), fun h => h.elim⟩
+    · intro pre a rest s s' hsplit hpre hrs ⟨new', hl, ⟨a1, a2, a3, a4⟩, hv⟩ hs hrest
+      obtain ⟨evs, hl2, hal⟩ := step_log hs
+      obtain ⟨n2, hl3⟩ := run_log hrest
+      have hconf1 : ConfAgree k s.log := by
+        rw [hl3, hl2, ← List.append_assoc] at hconf
+        exact hconf.of_append
+      have ha := hacts a (by rw [hsplit]; simp)
+      have hq := queue_inv hrs
+      have hclock : s.clock ≤ s2.clock := Int.le_trans (step_clock hs) (run_clock hrest)
+      have httl1 : exp = Gen.zeroTime ∨ s.clock < exp := httl.imp id (fun h => Int.lt_of_le_of_lt hclock h)
+      have hh : RunHyp cfg k exp s :=
+        ⟨hrs, a1, a2, a3, hconf1, hcalm pre (a :: rest) s hsplit hpre, httl1, a4⟩
+      have hcalm' : Calm k s' := by
+        refine hcalm (pre ++ [a]) rest s' (by rw [hsplit]; simp) ?_
+        rw [run_append, hpre]; simp [Cache.run, hs]
+      exact ⟨evs ++ new', by rw [hl2, hl]; simp,
+        ⟨noSetK_step hq a1 ha.1 hs, noDelK_step hq a2 ha.2.1 hs, noClr_step hq a3 ha.2.2 hs, open_step a3 a4 hs⟩,
+        hv.step hh hcalm' hs hal⟩
+  obtain ⟨new', hl', _, hv⟩ := key
+  have : new' = new := by rw [hlog] at hl'; exact (List.append_cancel_right hl').symm
+  subst this
+  exact hv.w5 hwait
+
+/-- With room to spare the policy's answer is forced: a new key is admitted, nobody is evicted;
+an accounted key is only re-costed. -/
+theorem polAdd_room {on : Bool} {p : Pol} {m : Met} {k : Hash} {cost : Int} {vs : List (Hash × Int)} {added : Bool}
+    {pm : Pol × Met} (h : polAdd on p m k cost vs added = some pm)
+    (hfit : cost ≤ p.maxCost) (hroom : p.used + cost ≤ p.maxCost) :
+    vs = [] ∧ (p.costs.lookup k = none → added = true ∧ pm.1.costs.lookup k = some cost) ∧
+    (∀ c0, p.costs.lookup k = some c0 → added = false) := by
+  unfold polAdd at h
+  rw [if_neg (by omega)] at h
+  cases hl : p.costs.lookup k with
+  | none =>
+    have hu : polUpdate on p m k cost = (p, m, false) := by simp [polUpdate, hl]
+    rw [hu] at h
+    simp only at h
+    rw [if_pos (by omega)] at h
+    split at h
+    · rename_i hc
+      simp only [Option.some.injEq] at h; subst h
+      simp only [Bool.and_eq_true, List.isEmpty_iff] at hc
+      exact ⟨hc.1, fun _ => ⟨hc.2, by simp [polAddKey]⟩, fun c0 h0 => by cases h0⟩
+    · simp at h
+  | some c0 =>
+    have hu : (polUpdate on p m k cost).2.2 = true := by simp [polUpdate, hl]
+    split at h
+    · rename_i p1 m1 _
+      split at h
+      · rename_i hc
+        simp only [Bool.and_eq_true, List.isEmpty_iff, Bool.not_eq_eq_eq_not, Bool.not_true] at hc
+        exact ⟨hc.1, (fun h0 => by cases h0), fun _ _ => hc.2⟩
+      · simp at h
+    · rename_i heq
+      rw [heq] at hu; cases hu
+
 end RV.Cache
